@@ -39,7 +39,7 @@ def random_materials(rng, attenuation=False):
 
 
 def immersion_setup(rng, numelements=None, numscat=None, max_refl=1, wall_points=None, tilt_deg=None,
-                    attenuation=False, trace=True):
+                    attenuation=False, trace=True, aligned=False, offset=None):
     """A block in immersion with a tilted linear probe above z=0, back wall at z=depth,
     scatterers inside; returns a dict with materials, probe, interfaces, paths (rays
     traced by arim's own ray tracing when trace=True), views, exam_obj."""
@@ -58,14 +58,24 @@ def immersion_setup(rng, numelements=None, numscat=None, max_refl=1, wall_points
     standoff = float(rng.uniform(5e-3, 40e-3))
     tilt = math.radians(float(tilt_deg if tilt_deg is not None else rng.uniform(-25.0, 25.0)))
     probe.rotate(arim.geometry.rotation_matrix_y(tilt))
-    probe.translate([float(rng.uniform(-5e-3, 5e-3)), 0.0, -standoff - abs(math.sin(tilt)) * pitch * numelements])
+    probe.translate([0.0 if aligned else float(rng.uniform(-5e-3, 5e-3)), 0.0, -standoff - abs(math.sin(tilt)) * pitch * numelements])
     depth = float(rng.uniform(15e-3, 60e-3))
     xmin, xmax = -40e-3, 60e-3
-    frontwall = arim.geometry.points_1d_wall_z(xmin, xmax, 0.0, wall_points, name="Frontwall")
-    backwall = arim.geometry.points_1d_wall_z(xmin, xmax, depth, wall_points, name="Backwall")
+    if aligned:
+        # (use with tilt_deg=0) the first element, a wall sample of each wall and the first scatterer on ONE vertical line x = 0:
+        # the rays between them are exactly vertical (angles exactly 0 or pi)
+        xmin, xmax, wall_points = -50e-3, 50e-3, 129
+    ox, oy, oz = (0.0, 0.0, 0.0) if offset is None else (float(offset[0]), float(offset[1]), float(offset[2]))
+    if offset is not None:
+        # the whole scene (probe, walls, scatterers) translated as one: an inspection described in site / robot coordinates
+        probe.translate([ox, oy, oz])
+    frontwall = arim.geometry.points_1d_wall_z(xmin + ox, xmax + ox, 0.0 + oz, wall_points, y=oy, name="Frontwall")
+    backwall = arim.geometry.points_1d_wall_z(xmin + ox, xmax + ox, depth + oz, wall_points, y=oy, name="Backwall")
     sx = rng.uniform(-5e-3, 30e-3, size=numscat)
     sz = rng.uniform(0.15 * depth, 0.85 * depth, size=numscat)
-    scat_points = arim.Points(np.stack([sx, np.zeros(numscat), sz], axis=1), "Scatterers")
+    if aligned:
+        sx[0] = 0.0
+    scat_points = arim.Points(np.stack([sx + ox, np.zeros(numscat) + oy, sz + oz], axis=1), "Scatterers")
     scat = arim.geometry.OrientedPoints(scat_points, arim.geometry.default_orientations(scat_points))
     exam_obj = arim.BlockInImmersion(block, couplant, frontwall, backwall, scat)
     probe_op = probe.to_oriented_points()
